@@ -17,7 +17,7 @@ def rets(P, fn):
 def run(chk, tier):
     P = Prog("default")
     chk.configs.add("default")
-    for r in (r_diff_months, r_month_direction, r_copy_ndt, r_zero_based, r_years_since, r_week, r_small, r_absint):
+    for r in (r_diff_months, r_month_direction, r_copy_ndt, r_zero_based, r_years_since, r_week, r_small, r_week_bounds, r_absint):
         chk.guarded(r, P, tier)
     chk.assume("that clamping, n-th weekday and week bounds are numerically right for every date is not decided beyond the rules listed")
     return {
@@ -184,3 +184,63 @@ def r_absint(chk, P, tier):
              "from_weekday_of_month_opt", "years_since", "checked_first_day", "checked_last_day", "checked_days", "with_mdf", "quarter", "year_ce", "num_days", "week")
     e1.report(chk, P, res, "ABSINT.fields", "arithmetic, casts and index operations of month stepping / field replacement / week helpers are discharged or justified",
               fn_filter=lambda fn: fn.split("::{")[0].split("::")[-1] in names, floor=20)
+
+
+def r_week_bounds(chk, P, tier):
+    """NaiveWeek::checked_first_day / checked_last_day as finite maps (def-use terms folded, no execution) over: the last 14 days before NaiveDate::MAX
+    and the first 14 after NaiveDate::MIN, and the first and last 8 days of one representative year per year class (year crossings), each with all 7
+    week starts; thorough: every day of the representative years. Oracle: first = date - ((weekday - start) mod 7), last = first + 6, None outside the range."""
+    from finmap import Folder, show, Unknown
+    import calendar_oracle as cal
+    from props.c01 import _c, _date, _wd, _yof_of, flags_of, INT
+    from rules import table_value
+    chk.rule("MAP.week_bounds", "checked_first_day / checked_last_day of every (date, week start) at both range ends and around every kind of year boundary equal the calendar's week bounds (None beyond the range)", floor=2)
+    fo = Folder(P, max_depth=10)
+    tbl = [flags_of(c) for c in table_value(P, INT + "::YEAR_TO_FLAGS")]
+    miny, maxy = P.value("naive::date::MIN_YEAR"), P.value("naive::date::MAX_YEAR")
+    NW = "naive::NaiveWeek"
+
+    def yof(y, o):
+        return (y << 13) | (o << 4) | tbl[y % 400]
+
+    def shift(y, o, k):
+        """(year, ordinal) k days later, or None beyond the supported range"""
+        o += k
+        while o < 1:
+            y -= 1
+            o += cal.days_in_year(y)
+        while o > cal.days_in_year(y):
+            o -= cal.days_in_year(y)
+            y += 1
+        return (y, o) if miny <= y <= maxy else None
+    reps = {}
+    for y in range(2000, 2400):
+        reps.setdefault(tbl[y % 400], y)
+    dates = []
+    ndm = cal.days_in_year(maxy)
+    dates += [(maxy, o) for o in range(ndm - 13, ndm + 1)] + [(miny, o) for o in range(1, 15)]
+    for y in sorted(reps.values()):
+        nd = cal.days_in_year(y)
+        rng = range(1, nd + 1) if tier == "thorough" else list(range(1, 9)) + list(range(nd - 7, nd + 1))
+        dates += [(y, o) for o in rng]
+    bad = {}
+    n = 0
+    for (y, o) in dates:
+        m_, d_ = cal.from_ordinal(y, o)
+        wd = cal.weekday(y, m_, d_)      # 0 = Monday
+        for st in range(7):
+            back = (wd - st) % 7
+            first = shift(y, o, -back)
+            last = shift(y, o, -back + 6)
+            wk = ("agg", "adt", NW, "NaiveWeek", (_date(yof(y, o)), _wd(P, st)), 0)
+            for name, want in (("checked_first_day", first), ("checked_last_day", last)):
+                n += 1
+                try:
+                    got = _yof_of(show(fo.call(NW + "::" + name, [("ref", wk)])))
+                except Unknown as e:
+                    got = "unknown: %s" % e
+                w = yof(*want) if want else None
+                if got != w:
+                    bad.setdefault(name, ((y, o, st), got, w))
+    for name in ("checked_first_day", "checked_last_day"):
+        chk.expect(name not in bad, name, "NaiveWeek::%s deviates at (year, ordinal, week start) %s: got %s, expected %s" % ((name,) + bad.get(name, ((), 0, 0))), loc=P.loc(NW + "::" + name), detail_ok="%d evaluations" % n)
